@@ -242,6 +242,45 @@ def corpus_cases(prop, topic):
     return out
 
 
+def isomap_leg(ctx, nsets, prop_sig):
+    """End-to-end (thorough tier: the harness includes all of tapkee.hpp): Isomap through the public API with
+    num_neighbors / neighbors_method / check_connectivity on tie-free exact-mode data, observed at the eigensolver hook.
+    The matrix handed to the eigensolver depends on the data only through the neighbourhood graph, so it must be
+    bit-identical for Brute / VpTree / CoverTree; with check_connectivity it must be finite and nothing may throw."""
+    from checks import c03 as C3
+    binary, log = ctx.build_harness("c02_isomap.cpp", extra=common_flag())
+    if not binary:
+        ctx.broken("harness-build:isomap", "harness c02_isomap.cpp", "harness does not compile: " + log[-1200:])
+        return
+    r = ctx.rng
+    cases = []
+    for i in range(nsets):
+        n = r.range(6, 24)
+        sp = C3.data_clusters(r.fork(), n) if i % 3 else C3.data_chain(r.fork(), n)
+        if sp is None or G.size(sp) < 5:
+            continue
+        sp.update({"k": r.range(3, min(6, G.size(sp) - 1)), "check": "1" if i % 4 else "0", "vs": G.vantage_stream(r, n)})
+        cases.append(sp)
+    lines = [G.case_line("iso", c) for c in cases]
+    outs = ctx.run_impl_cases(binary, lines, env={"OMP_NUM_THREADS": "1"}, timeout=3000)
+    for c, line, o in zip(cases, lines, outs):
+        ctx.count(line, True)
+        ctx.stat("isomap-end-to-end")
+        ctx.cov["traces_validated_against_impl"] += 1
+        if o.startswith("abort:"):
+            ctx.fail(prop_sig + ":isomap-abort:" + o[6:], "Isomap through the public API aborts (%s)" % o[6:], case=line, detail={"impl": o})
+            continue
+        f = fields_of(o)
+        if f.get("same") != "1":
+            ctx.fail(prop_sig + ":isomap-methods-differ", "Isomap hands different matrices to the eigensolver depending on "
+                     "neighbors_method on tie-free data (the neighbourhood graphs differ): %s" % o, case=line, detail={"impl": o})
+        elif c["check"] == "1" and not all(f.get(m, "").startswith("ok:") and f[m].endswith(":1") for m in METHODS):
+            ctx.fail(prop_sig + ":isomap-check-connectivity", "Isomap with check_connectivity=true throws or produces a non-finite "
+                     "matrix (unreachable pairs in the neighbourhood graph): %s" % o, case=line, detail={"impl": o})
+        else:
+            ctx.stat("isomap-end-to-end:" + ("identical-finite" if f.get("brute", "").endswith(":1") else "identical-observation-class"))
+
+
 def correspond(ctx):
     binary, log = ctx.build_harness("c02_knn.cpp", extra=common_flag())
     if not binary:
@@ -332,6 +371,8 @@ def correspond(ctx):
                 big.append(cc)
     for cc in big:
         judge(ctx, binary, [cc], "large-N", brief=True)
+    if not quick:
+        isomap_leg(ctx, 400, "c02")
     ctx.cov["rule"] = ("exact-mode sample sets (integer lattices incl. the 7x7 grid, duplicated samples, clusters with 10^6 scale "
                        "ratio, dyadic generic data in 1..50 dims, tree/path/ultrametric integer matrices, powers-of-two "
                        "ultrametrics up to 2^60, PSD integer kernels with perfect-square induced distances) x {Brute, VpTree, "
